@@ -14,6 +14,9 @@ use crate::vm::state::{MAGICAL_DUMP_VAR, State};
 use crate::{Context, Tera};
 
 const MAX_COMPONENT_RECURSION_DEPTH: usize = 20;
+/// Blocks, `super()`, includes and components all recurse in the interpreter. Inheritance and
+/// includes can be combined in ways that recurse forever so we error past that depth.
+const MAX_RENDER_DEPTH: usize = 128;
 
 pub(crate) struct VirtualMachine<'tera> {
     tera: &'tera Tera,
@@ -57,6 +60,12 @@ impl<'tera> VirtualMachine<'tera> {
         output: &mut impl Write,
     ) -> TeraResult<()> {
         let mut ip = 0;
+
+        if state.render_depth > MAX_RENDER_DEPTH {
+            return Err(Error::message(
+                "Maximum render nesting depth exceeded: blocks, `super()` and includes are probably recursive.",
+            ));
+        }
 
         macro_rules! rendering_error {
             ($msg:expr,$span_range:expr) => {{
@@ -169,7 +178,7 @@ impl<'tera> VirtualMachine<'tera> {
                     Err(msg) => rendering_error!(msg, current_span),
                 };
 
-                let val = match self.render_component(&component_chunk, context) {
+                let val = match self.render_component(&component_chunk, context, state.render_depth) {
                     Ok(v) => v,
                     Err(mut e) => {
                         if let ErrorKind::RenderingError(ref mut report) = e.kind {
@@ -495,6 +504,7 @@ impl<'tera> VirtualMachine<'tera> {
                         state.blocks[pos].2 = level + 1;
                         let mut super_output = Vec::with_capacity(128);
                         let old_capture_buffers = std::mem::take(&mut state.capture_buffers);
+                        state.render_depth += 1;
                         #[cfg(feature = "verif-hooks")]
                         let verif_before = state.verif_sizes();
                         let res = self.interpret(state, &mut super_output);
@@ -502,6 +512,7 @@ impl<'tera> VirtualMachine<'tera> {
                         if res.is_ok() {
                             crate::verif::render_end("super", verif_before, state.verif_sizes());
                         }
+                        state.render_depth -= 1;
                         state.capture_buffers = old_capture_buffers;
                         state.chunk = old_chunk;
                         state.blocks[pos].2 = level;
@@ -579,6 +590,7 @@ impl<'tera> VirtualMachine<'tera> {
                     let old_chunk = state.chunk.replace(block_chunk);
                     state.blocks.push((block_name, block_lineage, 0));
                     let old_block_name = state.current_block_name.replace(block_name);
+                    state.render_depth += 1;
                     #[cfg(feature = "verif-hooks")]
                     let verif_before = state.verif_sizes();
                     let res = if state.capture_block == Some(block_name.as_str()) {
@@ -593,6 +605,7 @@ impl<'tera> VirtualMachine<'tera> {
                     if res.is_ok() {
                         crate::verif::render_end("block", verif_before, state.verif_sizes());
                     }
+                    state.render_depth -= 1;
                     state.chunk = old_chunk;
                     state.current_block_name = old_block_name;
                     state.blocks.pop();
@@ -941,7 +954,12 @@ impl<'tera> VirtualMachine<'tera> {
         Error::new(ErrorKind::RenderingError(Box::new(err)))
     }
 
-    fn render_component(&self, chunk: &Chunk, context: Context) -> TeraResult<String> {
+    fn render_component(
+        &self,
+        chunk: &Chunk,
+        context: Context,
+        caller_depth: usize,
+    ) -> TeraResult<String> {
         let depth = self.component_recursion_depth + 1;
         if depth > MAX_COMPONENT_RECURSION_DEPTH {
             return Err(Error::message(
@@ -957,6 +975,7 @@ impl<'tera> VirtualMachine<'tera> {
 
         let mut state = State::new_with_chunk(&context, chunk);
         state.filters = Some(&self.tera.filters);
+        state.render_depth = caller_depth + 1;
         let mut output = Vec::with_capacity(1024);
         vm.interpret(&mut state, &mut output)?;
         #[cfg(feature = "verif-hooks")]
@@ -983,6 +1002,7 @@ impl<'tera> VirtualMachine<'tera> {
         let mut include_state = State::new_with_chunk(state.context, &tpl.chunk);
         include_state.include_parent = Some(state);
         include_state.filters = Some(&self.tera.filters);
+        include_state.render_depth = state.render_depth + 1;
         vm.interpret(&mut include_state, output)?;
         #[cfg(feature = "verif-hooks")]
         crate::verif::render_end("include", (0, 0, 0), include_state.verif_sizes());
